@@ -8,7 +8,7 @@
    list-of-successes function, leaf instances of E1 and the order-freeness of the specification's
    language.  The property is otherwise carried by the correspondence check
    (exhaustive small ASTs x inputs, random stream) against the extracted spec_is_match. *)
-From RX Require Import Base.Prelude Base.InvList Spec.Syntax Spec.Sem Model.Op Model.Engine Proofs.LeafFacts Model.Matcher Model.Api Proofs.EngineFacts Proofs.EngineCorollaries Proofs.LowerFacts Proofs.FragmentSpec Model.Compiler.
+From RX Require Import Base.Prelude Base.InvList Spec.Syntax Spec.Sem Model.Op Model.Engine Proofs.LeafFacts Model.Matcher Model.Api Proofs.EngineFacts Proofs.EngineCorollaries Proofs.LowerFacts Proofs.FragmentSpec Model.Compiler Proofs.QuantFacts Proofs.QuantLaws Proofs.FixedFacts.
 
 (* a literal character is the specification's RChar, at every position, in every context *)
 Theorem C01_literal_partial :
@@ -87,6 +87,32 @@ Example C01_language_nonvacuous :
   /\ spec_is_match ex_fl [122; 98; 100; 100; 120]%N ex_re = true.
 Proof. split; [reflexivity|]. split; [exact ex_plain|]. split; [exact ex_lowers | exact ex_agree]. Qed.
 
+(* The same with quantifiers: the fragment plus greedy and reluctant repeats {n,m}, {n,}, *, +, ? over
+   bodies that match a fixed number of characters (the operations GreedyFixed / ReluctantFixed).
+   [lowersq] relates such a repeat to RQuant with the same bounds; quant_wf says that the bounds of
+   every quantifier of r are ordered (the grammar rejects the others); the input is shorter than
+   usize::MAX.  The specification side rests on QuantFacts.quant_ends_spec: r{n,m} ends exactly at
+   the positions reachable by k rounds of r for some n <= k <= m. *)
+Theorem C01_fragment_quantified_language_partial :
+  forall prog input fl o r s,
+    p_op prog = make_sequence o OEnd ->
+    plainq input (p_case prog) (p_multi prog) (p_hasbackrefs prog) (p_maxparens prog) o ->
+    quant_wf r ->
+    lowersq (p_case prog) fl o r -> s_i fl = p_case prog -> s_m fl = p_multi prog ->
+    (N.of_nat (length input) < umax)%N ->
+    (p_hasbol prog = false /\ p_minlen prog = 0%N /\ p_prefix prog = None /\ p_icc prog = None /\ p_pre prog = []) ->
+    length (sb s) = length (eb s) ->
+    ((exists s', matches prog input 0 s = MTrue s') <-> spec_is_match fl input r = true).
+Proof. exact fragmentq_is_match_spec. Qed.
+
+Example C01_quantified_nonvacuous :
+  (forall input, plainq input false false false 1 exq_op) /\ lowersq false ex_fl exq_op exq_re /\ quant_wf exq_re
+  /\ (exists s', matches exq_prog [122; 98; 120; 120; 120; 100; 100]%N 0 st0 = MTrue s')
+  /\ spec_is_match ex_fl [122; 98; 120; 120; 120; 100; 100]%N exq_re = true.
+Proof.
+  split; [exact exq_plain|]. split; [exact exq_lowers|]. split; [exact exq_wf|]. exact exq_runs.
+Qed.
+
 Print Assumptions C01_literal_partial.
 Print Assumptions C01_class_partial.
 Print Assumptions C01_alternation_is_union.
@@ -94,3 +120,4 @@ Print Assumptions C01_order_free_spec.
 Print Assumptions C01_fragment_is_match_partial.
 Print Assumptions C01_fragment_language_partial.
 Print Assumptions C01_fragment_ends_partial.
+Print Assumptions C01_fragment_quantified_language_partial.
